@@ -326,6 +326,8 @@ type GovModel struct {
 	Passed   int
 	Failed   int
 	Rejected int
+	// SpentFromGov: a passed proposal executed a message that pays out of the governance account
+	SpentFromGov bool
 }
 
 // ---------------------------------------------------------------------------------------------
@@ -832,6 +834,9 @@ func (m *Models) afterEnd(w *World, _ abci.ResponseEndBlock) {
 				}
 			}
 			m.Gov.Passed++
+			if spendsFromGov(m.Gov.Pending[id].Msgs) {
+				m.Gov.SpentFromGov = true
+			}
 			w.Ev("GOV passed %d", id)
 			delete(m.Gov.Pending, id)
 		case govv1.StatusFailed:
